@@ -49,6 +49,7 @@ def run(chk, replay=None):
     drv = C.setup(chk, ['OdfModel.Props.C01'])
     fs = C.encoders(chk, drv)
     C.strings_check(chk, drv, fs, want_identity=False)
+    C.adjacent_nodes_check(chk, drv, want_identity=False)
     C.trees_check(chk, drv, want_identity=False)
     C.documents_check(chk, want_identity=False, drv=drv)
     C.tableless_kwargs_check(chk)
